@@ -31,7 +31,9 @@ func c01Corpus(r *Run) []*pipeline.Case {
 	}
 	for i, e := range descgen.Curated() {
 		if r.thorough() || i%2 == 0 {
-			cases = append(cases, separate(e, i%4 == 0))
+			c := separate(e, i%4 == 0)
+			c.DottedPath = i%4 == 2
+			cases = append(cases, c)
 		}
 	}
 	for _, e := range descgen.Exotic() {
